@@ -58,6 +58,10 @@ def op_rg_manual(c):
                 before = copy.deepcopy(a)
                 m.create_sg_from_board(*a)
                 first = _collect(d).get("text")
+                inp = os.path.join(d, "inputs")
+                for fn in os.listdir(inp):          # the file of an earlier, bigger board under the same name
+                    with open(os.path.join(inp, fn), "a") as f:
+                        f.write("# stale tail of an earlier file\n" * 400)
                 m.create_sg_from_board(*a)          # same board objects again: same file again
                 out = {"rc": 0, "args_intact": a == before}
                 out["first_same"] = first == _collect(d).get("text")
